@@ -152,6 +152,25 @@ func (propC02) Gen(seed uint64, tier string, idx int) *Plan {
 	if r.Chance(200) {
 		p.Ops[0].Abort = &Abort{At: "resp", K: 1 + r.Pick(2000), Kind: pickS(r, []string{"fin", "rst"})}
 	}
+	if r.Chance(200) {
+		// a history of answers that never came (backend closes without a status line: not a connection
+		// error, the endpoint stays in rotation) leaves every endpoint k failures away from whatever
+		// failure bookkeeping the engine keeps; the request under test then fails mid-response on top of it
+		k := 2 + r.Pick(4)
+		shift := time.Duration(k)*300*time.Millisecond + 500*time.Millisecond
+		for i := range p.Ops {
+			p.Ops[i].At += shift
+		}
+		for j := 0; j < k; j++ {
+			id := 100 + j
+			p.Ops = append(p.Ops, ClientOp{ID: id, At: time.Duration(j) * 300 * time.Millisecond, Method: "POST", Path: "/olla/proxy/v1/chat/completions",
+				Body: BodySpec{Kind: "json", N: 100, Model: "m1"}, Deadline: 30 * time.Second})
+			for e := range p.Endpoints {
+				p.Endpoints[e].ByNonce[NonceOf(id)] = []Resp{{Status: 200, Chunks: []Chunk{{N: 50}}, Fault: &Fault{At: "before-headers", Kind: "fin"}}}
+			}
+		}
+		p.Sub += fmt.Sprintf("/hist%d", k)
+	}
 	p.Deadline = 60 * time.Second
 	p.Settle = 200 * time.Millisecond
 	return p
